@@ -21,7 +21,7 @@ CLAIMS = {
     "C10": dict(
         text="Weakest level (gate only): rejection is total (every yield/return of parse dominated by 'whole text consumed' and 'finished start item'), the "
         "start symbol handed to chart_parse has a single alternative (auxiliary start symbol for grammars with several start alternatives), coalescing merges "
-        "only adjacent terminals, the nullable set is the recognised least fixed point, and ISLaSolver.parse's plumbing (the parser runs exactly once, on the argument string itself). Does NOT decide correctness of the Earley chart. The three Earley operations, the chart driver and the item operations have their textbook shape (recognised wrong shapes are violations, anything else an analysis error).",
+        "only adjacent terminals, the nullable set is the recognised least fixed point, and ISLaSolver.parse's plumbing (the parser runs exactly once, on the argument string itself). Does NOT decide correctness of the Earley chart. The three Earley operations, the chart driver and the item operations have their textbook shape (recognised wrong shapes are violations, anything else an analysis error). Also: every module splits expansions with the one pattern helpers.RE_NONTERMINAL, single_char_tokens takes terminal characters verbatim, and no grammar conversion of parser.py returns run-time module state (a 'last grammar' cache); accepted start items begin at position 0.",
         note="Trusted: chart construction and forest extraction.",
         technique=TECH + "gate dominance via path facts, arity invariant of star-unpacked alternatives",
         design="5/C10",
@@ -30,21 +30,21 @@ CLAIMS = {
         text="Decides the escape layer of the BNF round trip: writer table and reader algorithm constant-folded from source and shown mutually inverse on all 256 "
         "single characters and on all ordered pairs over a hazard alphabet (cross-boundary matches of sequential replace), lexer-significant characters escaped "
         "as ESC sequences, freshness of the backslash placeholder, layout of rules/alternatives/empty alternative, and the '<' placeholder discipline. Does NOT "
-        "decide language equality per nonterminal. Also: memoised functions that return mutable containers are not modified in place by their callers, is_nonterminal uses the tokenisation pattern, parse_bnf lexes the text as given.",
+        "decide language equality per nonterminal. Also: memoised functions that return mutable containers are not modified in place by their callers, is_nonterminal uses the tokenisation pattern, parse_bnf lexes the text as given. The '<' helper rule is defined whenever some alternative mentions it (not only when reachable from <start>).",
         note="Trusted: str.replace semantics, dict order, ANTLR STRING token rule.",
         technique=TECH + "constant folding of escape tables + abstract re-statement of the unescape algorithm over the folded tables",
         design="5/C11",
     ),
     "C12": dict(
         text="Weakest level (gate only): expand_tree returns only closed trees, expansion happens only at open leaves with the node's own alternatives and siblings "
-        "kept, swap only between equally labelled disjoint subtrees, replacement/generalisation re-open with the same label and close with the fuzzer; memo tables of mutator/fuzzer are keyed by all state they depend on (no class-level dict shared between instances for different grammars).",
+        "kept, swap only between equally labelled disjoint subtrees, replacement/generalisation re-open with the same label and close with the fuzzer; memo tables of mutator/fuzzer are keyed by all state they depend on (no class-level dict shared between instances for different grammars). The helpers the mutator builds trees with are covered by the same memo-key and symbol-classification rules (path_to_tree, canonical, is_nonterminal).",
         note="Trusted: asserts enabled; replace_path (C16).",
         technique=TECH + "gate dominance and shape recognition",
         design="5/C12",
     ),
     "C13": dict(
         text="Weakest level (gate only): every tree appended to insert_tree's result is dominated by the validity, all-original-nodes-retained and "
-        "inserted-tree-contained checks; all three insertion methods feed only through that gate under their own method bits; the context-addition filter quantifies over every host node; the wrapper tree follows a non-trivial derivation path and continues it through exactly one child chosen by position.",
+        "inserted-tree-contained checks; all three insertion methods feed only through that gate under their own method bits; the context-addition filter quantifies over every host node; the wrapper tree follows a non-trivial derivation path and continues it through exactly one child chosen by position. Also: dict memos of the insertion helpers are keyed by the grammar, the climb to higher insertion points stops at any node with more than one child, and connect_trees places the inserted tree by identity on every path and hands the replaced node's id to the connecting tree.",
         note="Trusted: asserts enabled; grammar_graph.tree_is_valid.",
         technique=TECH + "who-may-write the result list + gate dominance",
         design="5/C13",
@@ -86,7 +86,7 @@ CLAIMS = {
         text="Gate-only: decides that every definite verdict on a possibly open tree is dominated by the corresponding openness test (SMT atoms incl. the Z3 "
         "fallback; forall/exists vs. potential matches over all open leaves; falsy answers of the might-match oracle only when the nonterminal is unreachable "
         "from the leaf; semantic predicates; quantifier dropping in the second strategy), and that the three-valued connectives have Kleene's shape. "
-        "Reduces the property to correctness of grammar reachability and of the match-expression prefix oracle, which are NOT decided. Semantic-predicate bindings count as TRUE only when every bound key is a Constant (a tree binding is a proposed update).",
+        "Reduces the property to correctness of grammar reachability and of the match-expression prefix oracle, which are NOT decided. Semantic-predicate bindings count as TRUE only when every bound key is a Constant (a tree binding is a proposed update). Also: the placeholder mapping of approximate_isla_to_smt_formula is one accumulator shared by the whole recursion (replaced only when None), and on the SMT-approximation path of evaluate() FALSE requires the negation of the abstracted formula to be valid (not merely a failed validity proof).",
         note="Trusted: graph.reachable; can_extend_leaf_to_make_quantifier_match_parent; closures run after their definition site.",
         technique=TECH + "gate dominance via path facts (incl. after-exit facts and a small propositional closure), shape recognition of Kleene connectives",
         design="5/C06",
@@ -161,7 +161,7 @@ CLAIMS = {
     "C04": dict(
         text="Decides that the registry binds exactly the documented predicate names/arities (read from sphinx/islaspec.rst) to distinct implementations of "
         "matching arity, that same_position/different_position/inside/direct_child/before/after are the specified path relations on recognised shapes "
-        "(after = converse of before for ALL pairs incl. ancestor/descendant), that predicates are pure, the nth domain, the path frames of consecutive (violated today: known finding), and level: anchor prefixes plus the five operator conditions compared as truth tables. Does NOT decide nth/consecutive beyond these shapes.",
+        "(after = converse of before for ALL pairs incl. ancestor/descendant), that predicates are pure, the nth domain, the path frames of consecutive (violated today: known finding), and level: anchor prefixes plus the five operator conditions compared as truth tables. Does NOT decide nth/consecutive beyond these shapes. before/after/same_position/different_position/inside are additionally decided over the five-case order domain of two paths (equal, ancestor either way, diverging left/right) whenever their definition is a boolean combination of comparisons, prefix tests and sibling calls; paths obtained from find_node are never tested by truthiness (the root path () is falsy).",
         note="Trusted: the table in the specification; paths as tuples of child indices.",
         technique=TECH + "spec-table vs registry agreement, normalised-AST recognition of path relations, purity (no writes to parameters)",
         design="5/C04",
@@ -177,7 +177,7 @@ CLAIMS = {
     "C20": dict(
         text="Decides the octal/decimal clause: a radix-tag (dimension) analysis over the octal_to_dec_* family proves octal strings are read in base 8, "
         "decimal strings in base 10, oct() only applied to decimal-side numbers, compared values are integers, replacement trees use the parser of the "
-        "target radix; plus dispatch-table arity/coverage/argument order; crop/ljust/rjust: replacement text is the prefix/suffix slice of exactly the requested width (no s[-n:] with possibly-zero n), verdict True exactly at len == width / len <= width. Does NOT decide count (see C14).",
+        "target radix; plus dispatch-table arity/coverage/argument order; crop/ljust/rjust: replacement text is the prefix/suffix slice of exactly the requested width (no s[-n:] with possibly-zero n), verdict True exactly at len == width / len <= width. Does NOT decide count (see C14). Also: just() answers False (not an assertion) for a text wider than the width without crop, and every parse of a cropped/padded/converted replacement text is under a SyntaxError handler that answers False.",
         note="Trusted: parameter names octal/decimal are the documented roles.",
         technique=TECH + "three-tag radix/dimension dataflow, dispatch-table arity",
         design="5/C20",
